@@ -395,6 +395,8 @@ def family(tier):
         ("ext", _desc([(["ab"], "Abba"), (["abc"], "alphabet")], "abc"), dict(hold=4)),
         ("pre", _desc([(["ab"], "he"), (["abc"], "help"), (["bc"], "x")], "abc", ss="add-space-only"), dict(hold=3)),
         ("fol", _desc([(["ab"], "day"), (["ab", "bc"], "Monday"), (["ab", "a"], "do")], "abc"), dict(hold=3)),
+        # a top-level chord whose keys are a strict subset of a pending multi-key follow-up chord: it must still fire
+        ("fsub", _desc([(["ab"], "day"), (["ab", "abc"], "Monday"), (["bc"], "hi")], "abc"), dict(hold=3)),
         ("sft", _desc([(["ab"], "Hi"), (["ab", "a"], "him")], "ab", ["rsft"]), dict(hold=3)),
         ("ssp", _desc([(["ab"], "hi")], ["a", "b", "comm"], ss="full"), dict(hold=3)),
         ("spc", _desc([([" a"], "and"), ([" ab"], "about")], ["spc", "a", "b"], ss="add-space-only"), dict(hold=3)),
